@@ -15,6 +15,14 @@ pub open spec fn answered(appts: Map<UUID, ApptRow>, breaches: Map<Locator, Tran
     ||| trackers.contains_key(u)
     ||| (penalty_of(appts, breaches, u) matches Some(p) && receipts.contains_key(txid_spec(p)) && receipts[txid_spec(p)] == ConfirmationStatus::IrrevocablyResolved)
 }
+// C01: a triggered appointment may be given up (listed as invalid, deleted without refund) only for cause: its blob does not
+// decrypt under the dispute id, or the node rejected its penalty
+pub open spec fn dropped_for_cause(appts: Map<UUID, ApptRow>, breaches: Map<Locator, Transaction>, receipts: Map<Txid, ConfirmationStatus>, u: UUID) -> bool {
+    match penalty_of(appts, breaches, u) {
+        None => true,
+        Some(p) => receipts.contains_key(txid_spec(p)) && receipts[txid_spec(p)] is Rejected,
+    }
+}
 // C02: the only transactions the Watcher's block processing may hand to the node
 pub open spec fn is_breach_penalty(appts: Map<UUID, ApptRow>, breaches: Map<Locator, Transaction>, tx: Transaction) -> bool {
     exists|u: UUID| #[trigger] matched(appts, breaches, u) && penalty_of(appts, breaches, u) == Some(tx)
